@@ -7,6 +7,7 @@ from spverif.core.util import attempt, exc_sig, rand_bytes, rand_uint, pool_uint
 from spverif.ref import uslp as R
 
 SCRIBBLE = True
+THOROUGH_SCALE = 24
 ID = "C17"
 LEVEL = "exploration"
 SHARDS = {"quick": 1, "thorough": 16}
